@@ -417,6 +417,9 @@ func runCase(c Case) (res simResult) {
 				missing = append(missing, sp.ID+"("+sp.URL+")")
 			}
 		}
+		if len(p.Tracked()) > 0 {
+			res.Facet2 = "C16/pipeline" // a state-table entry and a token held for good: C16's "MarkAsFinished deletes the state entry"
+		}
 		return fail("C01/pipeline", "seed(s) %v were never reported finished: after more than one virtual hour every goroutine is blocked; the reactor still tracks %v", missing, p.Tracked())
 	}
 	for id, err := range insertErrs {
@@ -464,6 +467,7 @@ func runCase(c Case) (res simResult) {
 		}
 	}
 	if tr := p.Tracked(); len(tr) != 0 {
+		res.Facet2 = "C16/pipeline"
 		return fail("C01/pipeline", "the reactor still tracks %v after every seed was reported finished", tr)
 	}
 	for _, it := range prod {
@@ -751,6 +755,9 @@ func propSim(t veriflib.TB, outer *testing.T, c Case, feats map[string]bool) {
 	if len(res.Produced) > 0 {
 		veriflib.Record("C15/pipeline", key, len(res.Produced) >= 2, cl, sample)
 	}
+	// every seed finished and the reactor holds nothing (no state-table entry, no token) whatever became of the seed:
+	// crawled, failed, excluded, refused
+	veriflib.Record("C16/pipeline", key, has("cut:unacceptable-url") || has("cut:excluded") || has("cut:failed-for-good"), cl, sample)
 	if has("ctl:pause-resume") {
 		veriflib.Record("C14/pipeline", key, res.NonTriv, cl, sample)
 	}
@@ -789,7 +796,7 @@ func genCase(t *rapid.T) (Case, map[string]bool) {
 	return c, feats
 }
 
-var simFacets = []string{"C01/pipeline", "C06/pipeline", "C05/pipeline", "C08/pipeline", "C13/pipeline", "C14/pipeline", "C03/sim", "C17/gauges", "C15/pipeline"}
+var simFacets = []string{"C01/pipeline", "C06/pipeline", "C05/pipeline", "C08/pipeline", "C13/pipeline", "C14/pipeline", "C03/sim", "C17/gauges", "C15/pipeline", "C16/pipeline"}
 
 func TestVerif_Sim_Pipeline(t *testing.T) {
 	defer veriflib.Flush()
